@@ -227,7 +227,8 @@ def _shrink_job(args):
     return minimise(mod, kind, tape_values, sig, budget, index)
 
 
-def write_replay(mod, kind, verif_seed, r, clause_sig, min_tape, out, shrink_runs):
+def write_replay(mod, kind, verif_seed, r, clause_sig, min_tape, out, shrink_runs,
+                 decisions=None):
     os.makedirs(os.path.join(OUT, 'replays'), exist_ok=True)
     path = os.path.join(OUT, 'replays', '%s-%s-%016x.json' % (
         mod.PROPERTY, hashlib.sha256(clause_sig.encode()).hexdigest()[:8], r['seed']))
@@ -238,6 +239,7 @@ def write_replay(mod, kind, verif_seed, r, clause_sig, min_tape, out, shrink_run
         'hashseed': os.environ.get('PYTHONHASHSEED'),
         'original_tape_len': len(r['tape']), 'shrink_executions': shrink_runs,
         'tape': list(min_tape),
+        'decisions': [[str(a), int(b)] for a, b in (decisions or [])][:600],
         'trace_digest': out.digest(),
         'trace': out.trace,
         'violation': viol[0].to_json() if viol else None,
@@ -372,11 +374,14 @@ def run_check(mod, tier, verif_seed, workers=None, budget_scale=None):
     for sig, r in todo:
         try:
             min_tape, nruns = shrunk.get(sig, (r['tape'], 0))
-            out = execute(mod, r['kind'], Tape(replay=min_tape, index=r['index']))
+            t_ = Tape(replay=min_tape, index=r['index'])
+            out = execute(mod, r['kind'], t_)
             if not any(v.signature == sig for v in out.violations):
                 min_tape, nruns = r['tape'], 0
-                out = execute(mod, r['kind'], Tape(replay=min_tape, index=r['index']))
-            path = write_replay(mod, r['kind'], verif_seed, r, sig, min_tape, out, nruns)
+                t_ = Tape(replay=min_tape, index=r['index'])
+                out = execute(mod, r['kind'], t_)
+            path = write_replay(mod, r['kind'], verif_seed, r, sig, min_tape, out, nruns,
+                                decisions=list(zip(t_.labels, t_.rec)))
         except Exception:
             harness_errors.append('minimise: ' + traceback.format_exc()[-3000:])
             continue
